@@ -246,7 +246,7 @@ def sigma_classes(fname, sp, rng):
     yield 'scalar1.7', 1.7
     if fname in ELEMENT_SIGMA and not util.is_pspace(sp):
         yield 'element', functab.pos_el(sp, rng, 0.2, 2.0)
-    if fname.startswith('SeparableSum') and 'convex_conj' not in fname and util.is_pspace(sp):
+    if 'SeparableSum' in fname and 'convex_conj' not in fname and util.is_pspace(sp):
         yield 'per-component', [0.4, 1.3][:len(sp)] if len(sp) <= 2 else [0.4, 1.3, 0.7][:len(sp)]
 
 
